@@ -504,3 +504,7 @@ def slices_of(obligation_name):
 for _o in OBS:
     if _o["name"].startswith("push_contract_"):
         _o["props"] = _o["props"] + ["C01"]    # WF (king cache, WF6, e.p. file) is preserved by push: the induction C01's precondition rests on
+
+for _o in OBS:
+    if _o["name"].startswith("fen_rank_") or _o["name"].startswith("fen_fields_"):
+        _o["props"] = _o["props"] + ["C20"]    # the `Fen:` line of `show` is Game::fen(): "FEN line agrees with the game"
